@@ -62,6 +62,8 @@ func (p *plan) String() string {
 			parts = append(parts, "Literal("+o.X+")")
 		case "ValueLiteral":
 			parts = append(parts, "ValueLiteral(#"+strconv.Itoa(o.I)+","+o.X+")")
+		case "ShrinkToken":
+			parts = append(parts, "ShrinkToken(#"+strconv.Itoa(o.I)+",head"+strconv.Itoa(o.J)+",tail"+strconv.Itoa(o.K)+")")
 		default:
 			parts = append(parts, o.Op)
 		}
@@ -153,6 +155,21 @@ func applyOp(d []byte, o mop) []byte {
 				}
 				lines[li] = append(append(append([]byte(nil), ln[:sep+1]...), []byte(lit)...), []byte(nl)...)
 				return bytes.Join(lines, nil)
+			}
+			k++
+		}
+		return d
+	case "ShrinkToken":
+		// the n-th word that is longer than head+tail keeps only its first `head` and last `tail` bytes
+		k := 0
+		for _, sp := range tokens(d, o.X) {
+			if sp.b-sp.a <= o.J+o.K {
+				continue
+			}
+			if k == o.I {
+				out := append([]byte(nil), d[:sp.a+o.J]...)
+				out = append(out, d[sp.b-o.K:sp.b]...)
+				return append(out, d[sp.b:]...)
 			}
 			k++
 		}
